@@ -169,3 +169,6 @@ def register(PROPS, CLASSIFIERS, REPLAY_RUNNERS):
 
     # ------------------------------------------------------------------ C14: stop() while a service's teardown misbehaves
     PROPS["C14"]["q_checks"].append(_lazy("c14svc", "c14_raising_service_teardown"))
+
+    # ------------------------------------------------------------------ C13: delayed self-sends (monitor only; no timers in the engine model)
+    PROPS["C13"].setdefault("q_checks", []).append(_lazy("multichecks", "c13_delayed_self_sends"))
